@@ -383,7 +383,14 @@ Inductive event :=
 | ERemove (c : N)                       (* registry.Remove of the client's handle *)
 | ETick (dt : N)
 | EStale | ECleanConn (c : N) | EShutdown
-| EFailNext.
+| EFailNext
+| EOneShot (c : N) (valid : bool) (k : N) (v : option N).
+      (* a BatchWrite of the service (service.go): the service begins a read-write transaction
+         ITSELF (engine.BeginTransaction(false), not through the registry), buffers the operations,
+         commits, and on any rejection rolls back in a deferred function — all inside one call.
+         valid = true: the batch is the single operation put k v (Some) / delete k (None);
+         valid = false: it additionally carries an operation the service rejects (empty or
+         over-long key, over-long value, unknown operation type). *)
 
 (* first line of a handle RPC: look the transaction up *)
 Definition with_handle (c : N) (s : state) (nf : list out) (f : N -> N -> state * list out)
@@ -448,6 +455,14 @@ Definition step (cfg : config) (s : state) (e : event) : state * list out :=
   | ECleanConn c => let r := clean_conn cfg (conn_of cfg c) s in (fst r, OMaint ROk :: snd r)
   | EShutdown => shutdown cfg s
   | EFailNext => (set_fail s true, [OMaint ROk])
+  | EOneShot c valid k v =>
+    if is_nil (lock_ids (lk s)) then            (* nobody holds or waits for the lock *)
+      if valid then
+        if fail_next s then (set_fail s false, [ORes c RFail])   (* Commit returned ApplyBatch's error *)
+        else (set_db s (match v with Some x => db_set k x (db s) | None => db_del k (db s) end),
+              [ORes c ROk])
+      else (s, [ORes c RInvalid])               (* rejected: the deferred Rollback gave the lock back *)
+    else (s, [ORes c RBusy])                    (* the call would wait: the harness does not issue it *)
   end.
 
 Fixpoint run (cfg : config) (s : state) (es : list event) : state * list out :=
